@@ -7,9 +7,9 @@ S=$(mktemp -d /tmp/seedv_XXXXXX)
 (cd /repo && git ls-files -z | xargs -0 cp --parents -t "$S" 2>/dev/null)
 cd "$S"
 export CLEMATIS_LOG_DIR="$S/.vlogs" CLEMATIS_SNAPSHOT_DIR="$S/.vsnap" CI=true TZ=UTC
-/venv/bin/python "$SRC/demo.py" > "$S/.demo0" 2>&1; d0=$?
+PYTHONPATH="$S" /venv/bin/python "$SRC/demo.py" > "$S/.demo0" 2>&1; d0=$?
 if ! patch -p1 -s < "$SRC/patch.diff"; then echo "SEED $NAME: patch does not apply"; rm -rf "$S"; exit 3; fi
-/venv/bin/python "$SRC/demo.py" > "$S/.demo1" 2>&1; d1=$?
+PYTHONPATH="$S" /venv/bin/python "$SRC/demo.py" > "$S/.demo1" 2>&1; d1=$?
 suite=$(env -u CLEMATIS_LOG_DIR -u CLEMATIS_SNAPSHOT_DIR -u CI -u TZ /venv/bin/python -m pytest -q -p no:cacheprovider --timeout=900 --continue-on-collection-errors 2>&1 | tail -1)
 cd "$HERE"; rm -rf "$S"
 chk=$(VERIF_JOBS="${VERIF_JOBS:-8}" tools/mutant.sh "$SRC/patch.diff" "$PID" 2>&1 | tail -3)
